@@ -10,6 +10,8 @@ A session is data: {"disjoint": bool, "ops": [...]} with
   {"op":"delete","h"}                                                                   graph_model.delete_graph
   {"op":"imp",   "slot", "entry", "gid"}                                                importer entry point on a saved text
   {"op":"enum",  "slot", "out", "to": "file"|"string"}        ABCGraphImporter.enumerate_graph_nodes[_to_string] on a saved GraphML text
+  {"op":"merge", "h", "other", "idx"}       graph_model.merge_nodes(<idx-th NodeID both models have>, other_graph=<model of other>)
+                                            (shared store; the two models share NodeIDs after a load with new_graph_id)
 
 `Runner` executes a session on the real code and hands every step to an observer (the oracle of
 props/c01.py and the correspondence both use it)."""
@@ -54,6 +56,7 @@ class Slot:
         self.api = None
         self.kind = None
         self.content_kind = None
+        self.producible = False
 
 
 class Runner:
@@ -68,6 +71,7 @@ class Runner:
         self.contents = {}
         self.slots = {}
         self.dead = set()
+        self.merged = False           # some merge_nodes succeeded: the store holds links between graphs
 
     def close(self):
         self.im.close()
@@ -140,7 +144,10 @@ class Runner:
         s.fmt, s.gid, s.kind, s.content_kind = op["fmt"], self.gid(op["h"]), self.kinds[op["h"]], self.contents[op["h"]]
         s.snap = self.snap(s.gid)
         s.valid = self.validates(s.gid)
-        s.api = api_view(t, s.kind) if s.content_kind == "topo" else None      # raw graphs are not API-built models
+        s.producible = L.setter_producible(self.im, s.gid)
+        # raw graphs are not API-built models; with links between graphs in the store the API of the held model also
+        # walks into the other graph, which the saved text (rightly) does not contain
+        s.api = api_view(t, s.kind) if (s.content_kind == "topo" and not self.merged) else None
         try:
             if op["via"] == "file":
                 self.im.nfile += 1
@@ -240,6 +247,26 @@ class Runner:
         except Exception as e:
             ev["result"] = ["err", L_err(e)]
         self.dead.add(h)
+
+    def op_merge(self, op, ev):
+        h, o = op["h"], op["other"]
+        ev.update(pre={g: self.snap(g) for g in set(self.live_ids().values())})
+        ev["result"] = ["skip", None]
+        if self.im.disjoint or o not in self.topos:
+            return
+        ga, gb = self.gid(h), self.gid(o)
+        ev.update(src=ga, other=gb)
+        common = sorted(set(map(str, L.node_ids(self.im, ga))) & set(map(str, L.node_ids(self.im, gb))))
+        if ga == gb or not common:
+            return
+        nid = common[op["idx"] % len(common)]
+        try:
+            self.topos[h].graph_model.merge_nodes(node_id=nid, other_graph=self.topos[o].graph_model)
+            ev["result"] = ["ok", nid]
+            self.merged = True
+        except Exception as e:
+            ev["result"] = ["err", L_err(e)]
+            ev["exc"] = "%s: %s" % (type(e).__name__, str(e)[:300])
 
     def op_enum(self, op, ev):
         """re-writes a saved GraphML text through read_graphml + generate_graphml (+ label markup for the file variant)"""
@@ -341,6 +368,17 @@ def corner_sessions(seed):
                         {"op": "clone", "h": 0, "newid": "abc-clone-%d" % k, "abc": True}, save,
                         {"op": "imp", "slot": 0, "entry": "file", "gid": "clone-%d" % k},
                         {"op": "delete", "h": 0}, {"op": "load", "h": 0, "slot": 0, "via": "string", "newid": None}]})
+                if not disj:
+                    # two models sharing their NodeIDs on one store, merge_nodes both ways, then the usual save / load
+                    out.append({"disjoint": False, "tag": "merged", "ops": [
+                        new, {"op": "save", "h": 0, "slot": 0, "fmt": fmt, "via": "string"},
+                        {"op": "new", "h": 1, "kind": kind, "content": None},
+                        {"op": "load", "h": 1, "slot": 0, "via": "string", "newid": "adm-%d" % k},
+                        {"op": "merge", "h": 0, "other": 1, "idx": k}, {"op": "merge", "h": 1, "other": 0, "idx": k + 1},
+                        {"op": "save", "h": 0, "slot": 1, "fmt": fmt, "via": via},
+                        {"op": "new", "h": 2, "kind": kind, "content": None}, {"op": "load", "h": 2, "slot": 1, "via": via, "newid": None},
+                        {"op": "save", "h": 1, "slot": 2, "fmt": fmt, "via": via}, {"op": "load", "h": 1, "slot": 2, "via": via, "newid": None},
+                        {"op": "ctor", "h": 3, "kind": kind, "slot": 2, "via": via}]})
                 if fmt == "graphml":
                     out.append({"disjoint": disj, "tag": "enumerate", "ops": [
                         new, save, {"op": "enum", "slot": 0, "out": 1, "to": "file"}, {"op": "enum", "slot": 1, "out": 2, "to": "string"},
@@ -384,7 +422,7 @@ def gen_session(rng, tag, thorough=False):
             h = rng.choice(handles)
             newid = None
             via = rng.choice(["string", "string", "file"])
-            if via == "string" and rng.random() < 0.25 and not _is_adv(ops, h):
+            if via == "string" and rng.random() < (0.25 if disj else 0.4) and not _is_adv(ops, h):
                 newid = rng.choice(["nid-%d" % rng.randrange(3), "nid-%s-%d" % (tag, step)])
             dmg = rng.choice(["mixed", "nogid", "nonid", "nonodes"]) if rng.random() < 0.08 else None
             ops.append({"op": "load", "h": h, "slot": rng.choice(slots), "via": via, "newid": newid, "damage": dmg})
@@ -398,9 +436,12 @@ def gen_session(rng, tag, thorough=False):
             ops.append({"op": "ctor", "h": h, "kind": rng.choice(["exp", "sub"] + ([] if disj else ["adv"])), "slot": rng.choice(slots),
                         "via": rng.choice(["string", "file"])})
             with_content.append(h)
-        elif r < 0.82 and savable:
+        elif r < 0.76 and not disj and len(handles) >= 2:
+            a, b = rng.sample(handles, 2)
+            ops.append({"op": "merge", "h": a, "other": b, "idx": rng.randrange(1000)})
+        elif r < 0.84 and savable:
             ops.append({"op": "edit", "h": rng.choice(savable), "seed": "%s/%d" % (tag, step)})
-        elif r < 0.88 and savable:
+        elif r < 0.89 and savable:
             ops.append({"op": "clone", "h": rng.choice(savable), "newid": "cl-%s-%d" % (tag, step), "abc": rng.random() < 0.5})
         elif r < 0.93:
             o = len(slots)
